@@ -13,8 +13,19 @@ def main():
     root = os.path.join(common.WORK, "dbg")
     shutil.rmtree(root, ignore_errors=True)
     os.makedirs(root)
+    port = None
+    if ss.wsdl is not None:
+        from .wsdl_driver import free_port
+        port = free_port()
+        ss.wsdl.location = f"http://127.0.0.1:{port}/soap/{name}/{i}"
     p = engine_g.Program(i, ss, root, label)
+    p.port = port
     stages = sys.argv[3].split(",") if len(sys.argv) > 3 else ["static", "probe"]
+    if "wsdl" in stages:
+        from . import engine_w
+        stages = [x for x in stages if x != "wsdl"] + [lambda p: engine_w.stage_wsdl(p)]
+    if "runtime" in stages:
+        stages = [x for x in stages if x != "runtime"] + [engine_g.stage_runtime]
     engine_g.run_programs([p], stages)
     print("dir:", p.dir, "features:", sorted(ss.features))
     print("gen:", {k: v for k, v in (p.gen or {}).items() if k != "text"})
